@@ -50,7 +50,10 @@ raw_fixed!(19, u64, 4);
 raw_fixed!(20, u64, 8);
 raw_fixed!(21, u8, 9);
 raw_fixed!(22, u64, 40);
-raw_fixed!(23, u8, 0);
+raw_fixed!(23, u16, 7);
+raw_fixed!(24, u8, 11);
+raw_fixed!(25, u8, 300);
+raw_fixed!(26, u8, 0);
 
 impl Raw for Bvd {
     const KID: u8 = 14;
@@ -120,6 +123,9 @@ macro_rules! with_kind {
             20 => { type $t = bva::Bvf<u64, 8>; $e }
             21 => { type $t = bva::Bvf<u8, 9>; $e }
             22 => { type $t = bva::Bvf<u64, 40>; $e }
+            23 => { type $t = bva::Bvf<u16, 7>; $e }
+            24 => { type $t = bva::Bvf<u8, 11>; $e }
+            25 => { type $t = bva::Bvf<u8, 300>; $e }
             _ => { type $t = bva::Bvf<u8, 0>; $e }
         }
     };
